@@ -279,6 +279,15 @@ def check_merge_expressions(ctx: Ctx, fi: FuncInfo):
     s, e = loop.target.elts[0].id, loop.target.elts[1].id
     stores = [n for n in ast.walk(loop) if isinstance(n, ast.Assign) and isinstance(n.targets[0], ast.Subscript) and isinstance(n.targets[0].value, ast.Name)]
     appends = [n for n in ast.walk(loop) if isinstance(n, ast.Call) and isinstance(n.func, ast.Attribute) and n.func.attr == "append" and isinstance(n.func.value, ast.Name)]
+    if len(stores) == 2 and not appends:
+        # the kept definitions are collected in a mapping keyed by the symbol instead of a list: is that what is returned?
+        rets = q.returns(fi)
+        rv = norm(rets[0].value) if len(rets) == 1 and rets[0].value is not None else ""
+        for st_ in stores:
+            d = st_.targets[0].value.id
+            if norm(st_.targets[0].slice) == s and (f"{d}.items()" in rv or rv == d):
+                ctx.fail("RW-DEFS", fi, "every kept definition appears in the result, in order", f"`{norm(st_)}` keeps the definitions to return in a mapping keyed by the symbol and returns `{rv}`: a symbol defined more than once (a return bit written twice, an intermediate re-bound between two uses) keeps only its LAST expression, at the position of its FIRST definition - readers in between see the wrong version or an undefined symbol", st_)
+                return
     if len(stores) != 1 or len(appends) != 1:
         ctx.undecided(fi.short, f"merge loop: {len(stores)} map stores and {len(appends)} appends (one of each expected)")
         return
